@@ -48,7 +48,7 @@ RULE = ('random smooth functions (sin, cos, tanh, exp(0.1 u), squares, products,
         'all, pairs} x declared in {setup_partials, setup} x coloring x jit; 30 % with a second setup before the second '
         'point (1 in 5 histories: the second setup changes the sizes (3,) -> (2,)/(4,)/(5,) through an option); static '
         'value as option or discrete input, changed between the points in 75 % of the cases that have one (first value '
-        '0 in 1 of 6)')
+        '0 in 1 of 7, -1 followed by -2 - two values of equal hash() - in 1 of 7)')
 ASSUMPTIONS = [
     'the same function body evaluated with NumPy by the harness is the reference; derivatives by complex step',
     'tolerance = 20 x spread of the reference under 1e-13 relative input perturbations (3 draws) + 64 ulp of the '
@@ -255,8 +255,9 @@ def gen_hist_case(rng, kind, cell, first, lin_via, reshape=False):
         cfg['static_kind'] = str(pick(rng, ['option', 'discrete']))
         if rng.random() < 0.75:
             g = [float(np.round(rng.uniform(0.5, 2.0), 3)) for _ in range(3)]
-            v0 = pick(rng, [0.0, 1.0, g[0], g[0], g[0], g[0]])
-            h['static_seq'] = [float(v0), g[1], g[2]]
+            v0 = pick(rng, [0.0, 1.0, -1.0, g[0], g[0], g[0], g[0]])
+            # -1.0 -> -2.0: different values with the same hash() (CPython)
+            h['static_seq'] = [float(v0), -2.0 if v0 == -1.0 else g[1], g[2]]
             cfg['static_val'] = float(v0)
     case['points'] = [_point(rng, c, shapes) for c in classes]
     if reshape:
@@ -472,6 +473,9 @@ def _subkind(case):
     if kind.startswith('Jax') and c['coloring'] and (case.get('hist') or {}).get('reshape'):
         # the coloring of a system outlives a setup
         return kind + '/second-setup-changes-sizes+coloring'
+    seq = (case.get('hist') or {}).get('static_seq')
+    if kind.startswith('Jax') and seq and any(a != b and hash(a) == hash(b) for a, b in zip(seq, seq[1:])):
+        return kind + '/static-change-between-values-of-equal-hash'
     if kind.startswith('Jax') and c.get('static_kind') == 'discrete' and not c['use_jit'] and \
             (case.get('hist') or {}).get('static_seq'):
         # without jit nothing signals a changed discrete value to the function that computes the jacobian
@@ -721,6 +725,8 @@ def judge(case, acc, seed=0):
                 acc.count('hist:resetup')
             if hist['static_seq']:
                 acc.count('hist:static-change-' + cfg['static_kind'])
+                if hist['static_seq'][:2] == [-1.0, -2.0]:
+                    acc.count('hist:static-change-equal-hash' + ('+jit' if cfg['use_jit'] else '+nojit'))
             if cfg.get('decl_where') == 'setup' and cfg['decl'] != 'none':
                 acc.count('hist:declared-in-setup')
             if hist['reshape']:
